@@ -14,11 +14,11 @@ ALL = ["C%02d" % i for i in range(1, 21)]
 TEXT = {
     "C01": dict(
         technique="runtime monitor (per-call hit/exit/visibility counters read on return) + ASan/UBSan, 4 tasking backends, stress with injected delays at enkiTS hook points",
-        text="Exploration: every parallel_for/parallel_foreach/parallel_in_blocks_of call issued by the workload is judged by a per-call monitor (exactly-once per index, nothing outside [0,n), joined and visible on return, nested calls) under all four tasking backends, plain and ASan/UBSan builds, incl. loops issued after a loop that ended early (exception / cancellation, TBB and serial backends) and loops issued while the caller's enkiTS pipe is full (parked workers + 256 queued tasks). Schedules are sampled (stress, oversubscription, uneven bodies, hook delays), not enumerated.",
+        text="Exploration: every parallel_for/parallel_foreach/parallel_in_blocks_of call issued by the workload is judged by a per-call monitor (exactly-once per index, nothing outside [0,n), joined and visible on return, nested calls) under all four tasking backends, plain and ASan/UBSan builds, incl. tasks passed as named objects that keep their own record, loops issued after a loop that ended early (exception / cancellation, TBB and serial backends) and loops issued while the caller's enkiTS pipe is full (parked workers + 256 queued tasks). Schedules are sampled (stress, oversubscription, uneven bodies, hook delays), not enumerated.",
         note="Trusts the harness monitor (atomic hit counters) and the sanitizers; TSan is not usable across TBB/libgomp/enkiTS (DESIGN 3.1). Counts > 10^7 and > INT_MAX are not executed.", ref="4/C01"),
     "C02": dict(
         technique="runtime monitor (execution counters, value check, lifetime registry on result slot, start-latency probe) + ASan/UBSan, 4 backends",
-        text="Exploration: bursts of scheduled closures / async / AsyncTask with instrumented result types on four backends; exactly-once execution, value fidelity, finished()=>get(), destruction waits, no operation on dead storage, released storage not written, under ASan/UBSan and plain; single submissions across the workers' spin-to-sleep transition, a submitter that stays busy waiting for its job, and re-configuration of the tasking system while work is queued; start stalls are classified per process (rare stall on TBB = open finding, systematic = violation).",
+        text="Exploration: bursts of scheduled closures / async / AsyncTask with instrumented result types on four backends; exactly-once execution, value fidelity, finished()=>get(), destruction waits, no operation on dead storage, released storage not written, under ASan/UBSan and plain; closures handed over as temporaries and as named objects, single submissions across the workers' spin-to-sleep transition, a submitter that stays busy waiting for its job, and re-configuration of the tasking system while work is queued; start stalls are classified per process (rare stall on TBB = open finding, systematic = violation).",
         note="Bounded 'eventually' (watchdog + logical witness); schedules sampled.", ref="4/C02"),
     "C03": dict(
         technique="offline rule checker over a sequence-numbered event log; directed pauses at RKCOMMON_VERIF hook points; TSan + ASan",
@@ -42,11 +42,11 @@ TEXT = {
         note="Reference: IEEE double arithmetic of the host.", ref="4/C07"),
     "C08": dict(
         technique="reference-count model in lock-step + ASan/LSan + TSan on concurrent histories",
-        text="Exploration: random single-thread histories checked after every step against a refcount model with destruction-position tracking; multi-thread stress under TSan and plain with final-count and exactly-once-destruction checks.",
+        text="Exploration: random single-thread histories checked after every step against a refcount model with destruction-position tracking (comparisons through mutable and const access paths), counts of 2^31..2^63 references through a verified store into the counter; multi-thread stress under TSan and plain with final-count and exactly-once-destruction checks.",
         note="Schedules sampled.", ref="4/C08"),
     "C09": dict(
         technique="value model in lock-step + lifetime registry + alignment check, fork-per-case under ASan/UBSan",
-        text="Exploration: random histories over Optional<T>/Any with instrumented payloads (a quarter of the operations on the lifetime-tracked payload run with a failpoint that makes a construction/assignment throw); engaged state, values, independence of copies, exactly-once destruction, no payload operation on dead storage, alignment, crash-free comparisons/printing.",
+        text="Exploration: random histories over Optional<T>/Any with instrumented payloads (a quarter of the operations on the lifetime-tracked payload run with a failpoint that makes a construction/assignment throw; one payload stores its own address); engaged state, values, independence of copies, exactly-once destruction, no payload operation on dead storage, alignment, crash-free comparisons/printing.",
         note="Results of comparisons with an empty side are not asserted (only totality).", ref="4/C09"),
     "C10": dict(
         technique="reference ordered-map model in lock-step under ASan/UBSan",
@@ -54,15 +54,15 @@ TEXT = {
         note="Small key alphabets; histories <= 30 ops.", ref="4/C10"),
     "C11": dict(
         technique="array model in lock-step + complete read-out after every step under ASan",
-        text="Exploration: random histories over ArrayView/OwnedArray/FixedArray/FixedArrayView/DataView; after each step every live wrapper is read fully so a dangling pointer becomes an ASan report at the step that created it; incl. element copies that throw (failpoint), self-sourced reset/assignment and reset histories on one DataView.",
+        text="Exploration: random histories over ArrayView/OwnedArray/FixedArray/FixedArrayView/DataView; after each step every live wrapper is read fully so a dangling pointer becomes an ASan report at the step that created it; incl. element copies that throw (failpoint), self-sourced reset/assignment, reset histories on one DataView and record elements with strides that are not multiples of their size.",
         note="Unaligned DataView strides are not generated (caller's UB).", ref="4/C11"),
     "C12": dict(
         technique="permutation/order/monotonicity checkers over recorded hand-off logs + ThreadSanitizer",
-        text="Exploration: 1..8 producers with unique-id payloads against a consuming thread; offline checks for loss/duplication/order/torn state; a burst protocol makes the consumer obtain the last value at every producer pause (instrumented payload with failing assignments, and std::string values incl. empty/repeated ones); TSan decides the data-race clause.",
+        text="Exploration: 1..8 producers with unique-id payloads against a consuming thread; offline checks for loss/duplication/order/torn state, the consumer's size()/empty() against the consume() that follows; a burst protocol makes the consumer obtain the last value at every producer pause (instrumented payload with failing assignments, and std::string values incl. empty/repeated ones); TSan decides the data-race clause.",
         note="Schedules sampled; TSan exact because only std primitives are used.", ref="4/C12"),
     "C13": dict(
         technique="runtime monitor of simultaneous body count and reported thread count, 4 backends, fresh process per init sequence",
-        text="Exploration: init sequences x n in 1..32 and n<=0 on four backends, fresh process each; max simultaneous parallel_for bodies <= n (transient vs persistent excess told apart by a re-measurement), numTaskingThreads()==n, with a saturation coverage floor; exiting enkiTS workers are held at a hook point so that teardown races show under ASan.",
+        text="Exploration: init sequences x n in 1..32 and n<=0 on four backends (plus the internal and serial backends with the application compiled with -fopenmp), fresh process each; max simultaneous parallel_for bodies <= n (transient vs persistent excess told apart by a re-measurement), numTaskingThreads()==n, with a saturation coverage floor; exiting enkiTS workers are held at a hook point so that teardown races show under ASan.",
         note="Simultaneous count only; distinct thread ids are evidence not verdict.", ref="4/C13"),
     "C14": dict(
         technique="alignment/pattern/interval-disjointness monitor + ASan/LSan, both allocator back ends",
@@ -70,7 +70,7 @@ TEXT = {
         note="libtbbmalloc internals are opaque to ASan (DESIGN 3.3).", ref="4/C14"),
     "C15": dict(
         technique="schema round trip on exact-size heap buffers, all truncation points, FixedBufferWriter model, under ASan/UBSan",
-        text="Exploration: generated typed schemas written and read back over exact-size buffers; every truncation point of small streams; read-back into fresh and into reused destinations; readers whose buffer was shortened under the cursor; capacity x size sequences for FixedBufferWriter against an accept/reject model.",
+        text="Exploration: generated typed schemas written and read back over exact-size buffers; every truncation point of small streams; vectors whose elements have stream operators of their own; read-back into fresh and into reused destinations; readers whose buffer was shortened under the cursor; capacity x size sequences for FixedBufferWriter against an accept/reject model.",
         note="Checked for the declared AbstractArray<T> operator.", ref="4/C15"),
     "C16": dict(
         technique="libFuzzer + ASan/UBSan with exception-type oracle; generated-tree round trip; truncation/substitution sweep",
@@ -78,7 +78,7 @@ TEXT = {
         note="max_len bounds nesting depth.", ref="4/C16"),
     "C17": dict(
         technique="128-bit index reference, exhaustive small extents, unique-id cells, under ASan/UBSan",
-        text="Exhaustive over all extents up to a small bound for bijection/iteration; random huge extents at corners; array adaptors checked on arrays whose cells hold their own flattened id (MultiSlice also over thick and non-clamping slices).",
+        text="Exhaustive over all extents up to a small bound for bijection/iteration; random huge extents at corners; array adaptors checked on arrays whose cells hold their own flattened id (MultiSlice also over thick and non-clamping slices; value ranges of converting accessors over regions).",
         note="Exhaustive only up to the stated extent bound.", ref="4/C17"),
     "C18": dict(
         technique="reference implementations + recomposition laws over exhaustive small-alphabet inputs under ASan/UBSan",
@@ -90,7 +90,7 @@ TEXT = {
         note="Schedules sampled.", ref="4/C19"),
     "C20": dict(
         technique="independent image decoder over exact-size ASan buffers; offline JSON trace checker",
-        text="Exploration: all widths/heights up to a bound plus wide/tall images (powers of two +-1 up to 65537) x six writer variants decoded by an independent reader; generated nested event scripts from 1..8 threads - alive together or run one after the other and exited (thread ids reused) - checked offline against the model log.",
+        text="Exploration: all widths/heights up to a bound plus wide/tall images (powers of two +-1 up to 65537) x six writer variants decoded by an independent reader, also with four writers at work at the same time; generated nested event scripts from 1..8 threads - alive together or run one after the other and exited (thread ids reused) - checked offline against the model log.",
         note="Decoder written from the Netpbm/PFM format descriptions.", ref="4/C20"),
 }
 
